@@ -25,7 +25,7 @@ func init() {
 		Level: "exploration",
 		Rule: "listings of n in {0,1,2,3,10,100,1000,rnd} entries with name/uid/gid/muid lengths from {0,1,200,4000,rnd}, delivered by the underlying iterator in batches {1,2,7,all,PRNG}; read-count sequences {exactly max entry, max+1, 2*max-1, PRNG in [max,8*max], huge}; " +
 			"wrong-offset probes {0, off-1, off+1, off+count} at every step. Server half: Readdir (NewReaddir/NewReaddir1/NewFixedReaddir) directly and through Session.Open+Read on SFileSys; oracle = concatenation of replies equals the reference encoding of the listing, " +
-			"each reply <= count and made of whole entries, empty read at the end (and again), wrong offsets rejected without disturbing the stream; two reads of one open directory arriving together at the running offset are served one after the other (one is refused as stale) and the listing stays complete. Client half: CFileSys(CSession) OpenDir iterator over ServeConn(SSession(SFileSys(fs))) with the negotiated msize forced to M " +
+			"each reply <= count and made of whole entries, empty read at the end (and again), wrong offsets rejected without disturbing the stream; two reads of one open directory arriving together at the running offset are served one after the other (one is refused as stale) and the listing stays complete; two different directories read alternately through the request handler (p9p.SSession) with every Rread kept as handed out and compared only at the end; a raw client that does not clip its counts (msize, 2*msize, 70000, 2^32-1) lists the directory over ServeConn at a small negotiated msize. Client half: CFileSys(CSession) OpenDir iterator over ServeConn(SSession(SFileSys(fs))) with the negotiated msize forced to M " +
 			"in {max+11, max+12, 512, 4096, 65536}, including listings with one entry of DefaultMSize-26..DefaultMSize-11 bytes; read buffers are windows of a larger canary-filled arena (nothing beyond len may be touched); oracle = entries returned equal the server's listing. non-trivial = an entry did not fit the remaining buffer (look-ahead) or a batch boundary fell inside a reply; distinct by (n, batch pattern, count pattern, msize)",
 		Assumptions: []string{
 			"read counts are at least as large as the largest encoded entry (the property's premise); msize-11 >= largest entry on the client half",
@@ -34,7 +34,7 @@ func init() {
 		Shards:   shards(8, 16),
 		Timeout:  timeouts(12*time.Minute, 90*time.Minute),
 		MinEvals: 300,
-		Required: []string{"server_direct_listings", "server_session_listings", "client_listings", "lookahead_events", "bad_offset_probes", "final_empty_reads", "transient_iterator_errors", "spare_capacity_reads", "giant_entry_listings", "concurrent_same_offset_reads"},
+		Required: []string{"server_direct_listings", "server_session_listings", "client_listings", "lookahead_events", "bad_offset_probes", "final_empty_reads", "transient_iterator_errors", "spare_capacity_reads", "giant_entry_listings", "concurrent_same_offset_reads", "held_dir_reply_rounds", "raw_client_listings"},
 		Run:      runC17,
 	})
 }
@@ -54,6 +54,7 @@ type listFS struct {
 type listEnt struct {
 	fs   *listFS
 	root bool
+	sub  bool // the second directory "sub": the same entries with names prefixed "S-"
 }
 
 func (f *listFS) RequireAuth(context.Context) bool { return false }
@@ -63,7 +64,18 @@ func (f *listFS) Auth(context.Context, string, string) (p9p.AuthFile, error) {
 func (f *listFS) Attach(context.Context, string, string, p9p.AuthFile) (p9p.Dirent, error) {
 	return &listEnt{fs: f, root: true}, nil
 }
-func (f *listFS) iterator() p9p.ReadNext {
+func (f *listFS) subEntries() []p9p.Dir {
+	out := make([]p9p.Dir, len(f.entries))
+	for i, d := range f.entries {
+		d.Name = "S-" + d.Name
+		out[i] = d
+	}
+	return out
+}
+
+func (f *listFS) iterator() p9p.ReadNext { return f.iteratorOf(f.entries) }
+
+func (f *listFS) iteratorOf(entries []p9p.Dir) p9p.ReadNext {
 	pos, bi := 0, 0
 	return func(context.Context) ([]p9p.Dir, error) {
 		if f.gate != nil {
@@ -77,10 +89,10 @@ func (f *listFS) iterator() p9p.ReadNext {
 			<-f.gate
 			atomic.AddInt32(&f.inIter, -1)
 		}
-		if pos >= len(f.entries) {
+		if pos >= len(entries) {
 			return nil, nil
 		}
-		k := len(f.entries)
+		k := len(entries)
 		if len(f.batches) > 0 {
 			k = f.batches[len(f.batches)-1]
 			if bi < len(f.batches) {
@@ -88,10 +100,10 @@ func (f *listFS) iterator() p9p.ReadNext {
 				bi++
 			}
 		}
-		if k <= 0 || k > len(f.entries)-pos {
-			k = len(f.entries) - pos
+		if k <= 0 || k > len(entries)-pos {
+			k = len(entries) - pos
 		}
-		out := f.entries[pos : pos+k]
+		out := entries[pos : pos+k]
 		pos += k
 		return out, nil
 	}
@@ -99,11 +111,17 @@ func (f *listFS) iterator() p9p.ReadNext {
 func (e *listEnt) Qid() p9p.Qid { return p9p.Qid{Type: p9p.QTDIR, Path: 1} }
 func (e *listEnt) OpenDir(context.Context) (p9p.ReadNext, error) {
 	e.fs.opens++
+	if e.sub {
+		return e.fs.iteratorOf(e.fs.subEntries()), nil
+	}
 	return e.fs.iterator(), nil
 }
 func (e *listEnt) Walk(ctx context.Context, names ...string) ([]p9p.Qid, p9p.Dirent, error) {
 	if len(names) == 0 {
-		return nil, &listEnt{fs: e.fs, root: true}, nil
+		return nil, &listEnt{fs: e.fs, root: e.root, sub: e.sub}, nil
+	}
+	if len(names) == 1 && names[0] == "sub" && !e.sub {
+		return []p9p.Qid{{Type: p9p.QTDIR, Path: 2}}, &listEnt{fs: e.fs, sub: true}, nil
 	}
 	return nil, nil, errors.New("not found")
 }
@@ -415,6 +433,12 @@ func runC17(w *mon.W) {
 					continue
 				}
 			}
+			if len(c.entries) >= 2 && w.Rng.Intn(4) == 0 {
+				heldDirRepliesC17(w, &listFS{entries: c.entries, batches: c.batches}, c, desc)
+			}
+			if len(c.entries) >= 1 && w.Rng.Intn(4) == 0 {
+				rawListC17(w, &listFS{entries: c.entries, batches: c.batches}, c, desc)
+			}
 			drainC17(w, sessReader{s, 1}, c, "session", desc)
 			s.Clunk(ctx, 1)
 			w.Count("server_session_listings", 1)
@@ -512,6 +536,143 @@ func concurrentReadsC17(w *mon.W, s p9p.Session, fs *listFS, c *c17case, desc st
 	s.Clunk(ctx, 1)
 	w.Count("server_session_listings", 1)
 	return false
+}
+
+// heldDirRepliesC17: two different open directories are read through the server's request
+// handler (p9p.SSession); each Rread is kept as handed out until the other directory has
+// been read as well, and must then still hold whole entries of its own directory.
+func heldDirRepliesC17(w *mon.W, fs *listFS, c *c17case, desc string) {
+	ctx := context.Background()
+	s := p9p.SFileSys(fs)
+	h := p9p.SSession(s)
+	if _, err := s.Attach(ctx, 1, p9p.NOFID, "u", ""); err != nil {
+		return
+	}
+	if qs, err := s.Walk(ctx, 1, 2, "sub"); err != nil || len(qs) != 1 {
+		w.Inconclusive("walk to sub: %v", err)
+		return
+	}
+	s.Open(ctx, 1, p9p.OREAD)
+	s.Open(ctx, 2, p9p.OREAD)
+	var subRef []byte
+	for _, d := range fs.subEntries() {
+		b, _ := refcodec.EncodeStat(d)
+		subRef = append(subRef, b...)
+	}
+	w.Count("held_dir_reply_rounds", 1)
+	type held struct {
+		fid  p9p.Fid
+		off  int
+		data []byte
+	}
+	var hs []held
+	offs := map[p9p.Fid]int{1: 0, 2: 0}
+	for k := 0; k < 2*len(c.entries)+4; k++ {
+		fid := p9p.Fid(1 + k%2)
+		cnt := c.maxEnt + 2 + w.Rng.Intn(2*c.maxEnt+1) // "S-" makes sub entries two bytes longer
+		m, err := h.Handle(ctx, p9p.MessageTread{Fid: fid, Offset: uint64(offs[fid]), Count: uint32(cnt)})
+		if err != nil {
+			w.Violate("mismatch", "C17:read-error:handler", fmt.Sprintf("Tread on directory fid %d at its running offset %d failed: %v; %s", fid, offs[fid], err, desc), nil)
+			return
+		}
+		rr, _ := m.(p9p.MessageRread)
+		hs = append(hs, held{fid, offs[fid], rr.Data}) // not copied
+		offs[fid] += len(rr.Data)
+	}
+	for _, x := range hs {
+		ref := c.ref
+		if x.fid == 2 {
+			ref = subRef
+		}
+		if x.off+len(x.data) > len(ref) || !bytes.Equal(x.data, ref[x.off:x.off+len(x.data)]) {
+			w.Violate("mismatch", "C17:reply-changed-after-handler-returned", fmt.Sprintf("the Rread returned for directory fid %d at offset %d (%d bytes) no longer carries that directory's entries once the other directory has been read; %s", x.fid, x.off, len(x.data), desc), nil)
+			return
+		}
+	}
+	if offs[1] != len(c.ref) || offs[2] != len(subRef) {
+		w.Violate("mismatch", "C17:listing-bytes:handler", fmt.Sprintf("listings read through the handler are incomplete: %d of %d and %d of %d bytes; %s", offs[1], len(c.ref), offs[2], len(subRef), desc), nil)
+	}
+	s.Stop(nil)
+}
+
+// rawListC17: a raw 9P client that does not clip its own read counts lists the directory
+// over a served connection with a small negotiated msize, asking for far more than a reply
+// can carry. Every reply must fit msize, hold whole entries, and the listing must arrive.
+func rawListC17(w *mon.W, fs *listFS, c *c17case, desc string) {
+	M := c.maxEnt + 11 + w.Rng.Intn(300)
+	if M < 256 {
+		M = 256
+	}
+	if M > 65536 || c.maxEnt+11 > M {
+		return
+	}
+	h, err := newSrvH(p9p.SSession(p9p.SFileSys(fs)), uint32(M), 1<<20)
+	if err != nil {
+		h.close()
+		w.Inconclusive("handshake: %v", err)
+		return
+	}
+	defer h.close()
+	w.Count("raw_client_listings", 1)
+	d2 := fmt.Sprintf("%s raw client, msize=%d", desc, h.msize)
+	ask := func(fc *p9p.Fcall) *p9p.Fcall {
+		h.send(fc)
+		if !settle() {
+			return nil
+		}
+		rs := h.take()
+		for retry := 0; retry < 3 && len(rs) == 0 && !h.served(); retry++ {
+			// judged only on a second look: two quiet snapshots in a row with nothing received
+			if q := mon.AwaitQuiesce(h.serveDone); q.Inconclusive {
+				return nil
+			}
+			rs = h.take()
+		}
+		if len(rs) != 1 {
+			w.Violate("mismatch", "C17:raw-no-reply", fmt.Sprintf("%s got %d replies (connection served=%v, err=%v); %s", refcodec.Describe(fc), len(rs), h.served(), h.serveErr, d2), nil)
+			return nil
+		}
+		return rs[0]
+	}
+	if r := ask(&p9p.Fcall{Type: p9p.Tattach, Tag: 1, Message: p9p.MessageTattach{Fid: 1, Afid: p9p.NOFID, Uname: "u"}}); r == nil || r.Type != p9p.Rattach {
+		return
+	}
+	if r := ask(&p9p.Fcall{Type: p9p.Topen, Tag: 1, Message: p9p.MessageTopen{Fid: 1, Mode: p9p.OREAD}}); r == nil || r.Type != p9p.Ropen {
+		return
+	}
+	var got []byte
+	for steps := 0; steps < len(c.entries)+5; steps++ {
+		cnt := []uint32{uint32(h.msize), uint32(2 * h.msize), 1<<32 - 1, uint32(h.msize - 10), 70000}[w.Rng.Intn(5)]
+		r := ask(&p9p.Fcall{Type: p9p.Tread, Tag: 2, Message: p9p.MessageTread{Fid: 1, Offset: uint64(len(got)), Count: cnt}})
+		if r == nil {
+			return
+		}
+		rr, ok := r.Message.(p9p.MessageRread)
+		if !ok {
+			w.Violate("mismatch", "C17:read-error:raw", fmt.Sprintf("Tread(count=%d) at the running offset %d answered with %s; %s", cnt, len(got), refcodec.Describe(r), d2), nil)
+			return
+		}
+		if len(rr.Data)+11 > h.msize {
+			w.Violate("mismatch", "C17:reply-too-long:raw", fmt.Sprintf("Rread of %d bytes exceeds what msize %d can carry; %s", len(rr.Data), h.msize, d2), nil)
+			return
+		}
+		if len(rr.Data) == 0 {
+			break
+		}
+		rest := rr.Data
+		for len(rest) > 0 {
+			_, used, derr := refcodec.DecodeStat(rest)
+			if derr != nil {
+				w.Violate("mismatch", "C17:partial-entry:raw", fmt.Sprintf("reply at offset %d does not consist of whole entries: %v; %s", len(got), derr, d2), nil)
+				return
+			}
+			rest = rest[used:]
+		}
+		got = append(got, rr.Data...)
+	}
+	if !bytes.Equal(got, c.ref) {
+		w.Violate("mismatch", "C17:listing-bytes:raw", fmt.Sprintf("listing read by the raw client (%d bytes) differs from the reference encoding (%d bytes) at byte %d; %s", len(got), len(c.ref), firstDiff(got, c.ref), d2), nil)
+	}
 }
 
 var errEOF = io.EOF
